@@ -960,6 +960,31 @@ def build_registry() -> dict:  # noqa: C901, PLR0912, PLR0915
     dc.ends_raw = False
     REG[dc.key] = dc
 
+    # dataclass hierarchies: A is first used parent-before-child, B child-before-parent (the grandchild last)
+    def dc_subject(name: str, layout: list, subs: dict | None = None) -> Subject:
+        subs = subs or {}
+        fields = [Field(n, "payload" if f == "payload" else "plist", sub=subs[n]) if f in ("payload", "payload-list")
+                  else field_for_format(n, f) for f, n in [x[:2] for x in layout]]
+        lay = [[f, n, subs[n]] if f in ("payload", "payload-list") else [f, n] for f, n in [x[:2] for x in layout]]
+        s = Subject("fixture:" + name, fx[name], fields, lay)
+        s.ends_raw = False
+        REG[s.key] = s
+        return s
+
+    base_a = dc_subject("FxBaseA", [["q", "num"], ["varlenHutf8", "text"]])
+    deriv_a = dc_subject("FxDerivA", [["q", "num"], ["varlenHutf8", "text"], ["varlenH", "blob"], ["arrayH-?", "flags"]])
+    base_b = dc_subject("FxBaseB", [["?", "flag"], ["varlenH", "blob"]])
+    deriv_b = dc_subject("FxDerivB", [["?", "flag"], ["varlenH", "blob"], ["d", "real"], ["payload", "one"]],
+                         {"one": inner})
+    deriv2_b = dc_subject("FxDeriv2B", [["?", "flag"], ["varlenH", "blob"], ["d", "real"], ["payload", "one"],
+                                        ["I", "small"]], {"one": inner})
+    plain_dc = dc_subject("FxPlain", [["q", "num"], ["payload", "base"], ["payload-list", "bases"],
+                                      ["varlenHutf8", "text"], ["arrayH-q", "nums"]],
+                          {"base": base_a, "bases": base_b})
+    for s in (base_a, deriv_a, deriv_b, base_b, deriv2_b, plain_dc, deriv_a, base_a):
+        s.build(s.det_value(random.Random(0)))
+        subject_of[s.cls] = s
+
     # packers
     names = ser.get_available_formats()
     for name in names:
